@@ -54,6 +54,7 @@ func stallRespSize(cs Case) int {
 	}
 	return 12<<20 + cs.DResp
 }
+
 var protos = []string{"Http1", "Http2", "bolt"}
 
 // Every case runs ONE mosn with a listener, router and cluster (own scripted upstream) per protocol and
@@ -229,14 +230,14 @@ type run struct {
 	wg       sync.WaitGroup
 
 	// hot upgrade: the survivor (see survivor) outlives the other clients
-	stop2     chan struct{}
-	stop2Once sync.Once
-	wg2       sync.WaitGroup
-	survOK    int32 // answered survivor requests
-	quietOK   int32 // the quiet survivor's request after the hand-over was answered
+	stop2         chan struct{}
+	stop2Once     sync.Once
+	wg2           sync.WaitGroup
+	survOK        int32 // answered survivor requests
+	quietOK       int32 // the quiet survivor's request after the hand-over was answered
 	survH1OK      int32 // answered requests of the HTTP/1.1 survivor
 	survH1Redials int32 // connections it had to open again after a "Connection: close"
-	survDead  int32 // the survivor's connection failed (recorded as a result)
+	survDead      int32 // the survivor's connection failed (recorded as a result)
 }
 
 type probe struct {
@@ -859,10 +860,10 @@ type outcome struct {
 	Dir         string    `json:"dir"`
 	StopConnMs  int64     `json:"stop_connection_seen_ms,omitempty"`
 	// hot upgrade: requests answered on the survivor's (handed-over) connection after the old process had exited
-	SurvivorAfterExit int  `json:"survivor_requests_after_old_exit,omitempty"`
+	SurvivorAfterExit int `json:"survivor_requests_after_old_exit,omitempty"`
 	// hot upgrade: the HTTP/1.1 keep-alive survivor (uploads in several reads): answered requests / reconnects after "Connection: close"
-	SurvivorH1OK      int `json:"http1_survivor_requests,omitempty"`
-	SurvivorH1Redials int `json:"http1_survivor_reconnects,omitempty"`
+	SurvivorH1OK      int  `json:"http1_survivor_requests,omitempty"`
+	SurvivorH1Redials int  `json:"http1_survivor_reconnects,omitempty"`
 	PhaseMissed       bool `json:"phase_missed,omitempty"`
 	probes            []probe
 }
